@@ -249,7 +249,13 @@ func cacheAPI(c cache.LRUFacade) lruAPI {
 
 func tinyAPI(c tiny.LRU) lruAPI {
 	return lruAPI{get: c.Get, peek: c.Peek, exist: c.Exist,
-		set: func(key interface{}, id, sz int) { c.Set(key, lval{id, sz}) }, del: c.Delete}
+		set: func(key interface{}, id, sz int) {
+			if sz < 0 {
+				c.Set(key, nil) // the tiny caches take any value, also the untyped nil
+				return
+			}
+			c.Set(key, lval{id, sz})
+		}, del: c.Delete}
 }
 
 func wideLRUCase(k *engine.Case) {
@@ -338,6 +344,10 @@ func wideLRUCase(k *engine.Case) {
 		case x < 4:
 			val++
 			sz := r.Intn(9)
+			if useTiny && r.Intn(8) == 0 {
+				sz = -1 // stores the untyped nil
+				k.Count("lru_set_nil_value", 1)
+			}
 			wide.set(key.v, val, sz)
 			single.set(key.v, val, sz)
 			k.Logf("Set(%s,{%d,size %d})", key.repr, val, sz)
